@@ -232,10 +232,11 @@ def run(pid, tier):
             real.append((run_, lp, t))
             ncorpus += 1
     fails = tracecheck.validate("Trace_Ledger", "Trace_Ledger.cfg", traces, out, name="Trace_Ledger_C02")
-    failed_traces = set()
+    failed_traces = {}
     for (t, l, clause) in fails:
         h = t["hdr"]
-        failed_traces.add(id(t))
+        if not (clause == "FullyUsedStored" and not h.get("store", True)):   # (known finding of C01, not an admissibility condition here)
+            failed_traces.setdefault(id(t), set()).add(clause)
         if "inst" in h:
             # on the small instances the code must also be *feasible*: every Ledger clause counts
             out.violation("small:%s" % clause, "instance %d: the Optimizer's own allocation violates %s (reported %.4f %%)" % (h["inst"]["id"], clause, h["z"]),
@@ -267,7 +268,14 @@ def run(pid, tier):
             wt = ledger.lp_trace(run_, dict(lp, vars=r["vars"], z=r["z"]))
             wt["hdr"].update(reported=z, witness_z=r["z"], witness=True)
             cand.append((wt, r, run_, lp))
-        elif r["z"] < z - tol and id(t) not in failed_traces and lp["kind"] == "H":
+        elif r["z"] < z - tol and id(t) in failed_traces:
+            # the code reports more than the best admissible allocation found, and TLC rejects the allocation it reports it with
+            h = t["hdr"]
+            out.violation("ReportedOptimumNotAdmissible:real:%s:%s" % ("humans" if h["kind"] == "H" else "animals", "storage" if h["store"] else "first-year-only"),
+                          "%s %s round %d: the Optimizer reported %.6f but its allocation violates %s of Ledger.tla, and the best admissible "
+                          "allocation found reaches only %.6f" % (h["cc"], h["preset"], h["round"], z, sorted(failed_traces[id(t)]), r["z"]),
+                          dict(hdr=h, reported=z, admissible_best=r["z"], violated_clauses=sorted(failed_traces[id(t)])))
+        elif r["z"] < z - tol and lp["kind"] == "H":
             out.machinery.append("witness search inconsistent with Ledger.tla: %s %s round %d reports %.6f with an allocation the specification "
                                  "accepts, the search found only %.6f" % (run_["job"]["cc"], run_["job"]["preset"], lp["round"], z, r["z"]))
     out.extra["witness_search"] = wstat
